@@ -96,6 +96,19 @@ Definition stack_spec (w : Z) (depth : nat) (s : list Z * Z) (i : Z * Z * Z) : l
   else if push =? 1 then (firstn depth ((din mod 2 ^ w) :: stk), dout)
   else (stk, dout).
 
+(* the ideal, UNBOUNDED stack, and "the history never holds more than depth elements" *)
+Definition ustack_spec (w : Z) (s : list Z * Z) (i : Z * Z * Z) : list Z * Z :=
+  let '(din, push, pop) := i in
+  let '(stk, dout) := s in
+  if pop =? 1 then (tl stk, hd 0 stk)
+  else if push =? 1 then ((din mod 2 ^ w) :: stk, dout)
+  else (stk, dout).
+Fixpoint never_above (w : Z) (depth : nat) (s : list Z * Z) (h : list (Z * Z * Z)) : Prop :=
+  match h with
+  | [] => True
+  | i :: h' => let s' := ustack_spec w s i in (length (fst s') <= depth)%nat /\ never_above w depth s' h'
+  end.
+
 (* the registers of a depth-deep stack implementation holding the abstract stack stk: stk, then zeros *)
 Definition pad (depth : nat) (stk : list Z) : list Z := stk ++ repeat 0 (depth - length stk).
 (* push and pop are 1-bit wires *)
